@@ -7,13 +7,17 @@
 package main
 
 import (
+	"bufio"
 	"bytes"
 	"encoding/hex"
 	"encoding/json"
 	"fmt"
+	"io"
 	"os"
+	"os/exec"
 	"strings"
 	"sync"
+	"time"
 
 	"github.com/piotrnar/gocoin/lib/btc"
 	"github.com/piotrnar/gocoin/lib/script"
@@ -140,6 +144,21 @@ func realCall(tx *btc.Tx, k *Call) (res string) {
 		return "nil"
 	}
 	return hx(d)
+}
+
+const callTimeout = 15 * time.Second
+
+// guardedCall: realCall with a watchdog. A digest request that blocks forever (hashLock never released by an
+// earlier call on the same object) would otherwise end the whole harness with the run-time's deadlock report.
+func guardedCall(tx *btc.Tx, k *Call) (res string, hung bool) {
+	ch := make(chan string, 1)
+	go func() { ch <- realCall(tx, k) }()
+	select {
+	case res = <-ch:
+		return res, false
+	case <-time.After(callTimeout):
+		return "", true
+	}
 }
 
 // modelCall asks the oracle (cache threaded inside the oracle): kind, preimage, digest
@@ -283,7 +302,17 @@ func runCase(c *Case) {
 	for n := range c.Calls {
 		k := &c.Calls[n]
 		one := Case{Label: c.Label, Version: c.Version, Lock: c.Lock, Ins: c.Ins, Outs: c.Outs, Spent: c.Spent, Calls: c.Calls[:n+1]}
-		got := realCall(shared, k)
+		got, hung := guardedCall(shared, k)
+		if hung {
+			// the shared object is stuck (hashLock left locked): nothing more can be asked of it
+			what := fmt.Sprintf("call %d (%s, input %d, hash type 0x%x) on the shared transaction object never returns (no answer within %v): an earlier request left hashLock locked", n, k.Kind, k.Idx, k.Ht, callTimeout)
+			if len(c.Spent) >= len(c.Ins) {
+				r.PropFail("cache-call-blocks", what, one)
+			} else {
+				r.TieFail("model-call-blocks", what+" - after a recovered panic (Spent_outputs shorter than the inputs); the model answers every request", one)
+			}
+			return
+		}
 		fresh[n] = realCall(c.real(), k)
 		defined, want, refPre := refCall(t, spent, k)
 		mk, mpre, mdig := modelCall(k)
@@ -338,30 +367,196 @@ func runCase(c *Case) {
 		}
 	}
 	if c.Par > 0 {
-		obj := c.real()
-		var wg sync.WaitGroup
-		bad := make([]string, c.Par)
-		for g := 0; g < c.Par; g++ {
-			wg.Add(1)
-			go func(g int) {
-				defer wg.Done()
-				for j := range c.Calls {
-					n := (j*(2*g+1) + g) % len(c.Calls) // a different order per goroutine
-					if got := realCall(obj, &c.Calls[n]); got != fresh[n] && bad[g] == "" && len(c.Spent) >= len(c.Ins) {
-						bad[g] = fmt.Sprintf("call %d (%s, input %d, hash type 0x%x) returns %s under %d concurrent callers, %s on a fresh object", n, c.Calls[n].Kind, c.Calls[n].Idx, c.Calls[n].Ht, got, c.Par, fresh[n])
-					}
-				}
-			}(g)
-		}
-		wg.Wait()
+		// the concurrent callers run in a child process: a run-time fatal error there (deadlock on hashLock, concurrent
+		// map access, a crash no recover() can catch) is an observation about THIS transaction and call list
+		bad, crash := parallelInChild(c, fresh)
 		r.Eval(c.Label+":parallel", "")
-		for _, b := range bad {
-			if b != "" {
-				r.PropFail("cache-parallel", b, c)
-				break
-			}
+		switch {
+		case crash != "":
+			r.PropFail("cache-parallel-crash", fmt.Sprintf("%d concurrent callers on one transaction object (%d digest requests each, different orders): %s", c.Par, len(c.Calls), crash), c)
+		case bad != "":
+			r.PropFail("cache-parallel", bad, c)
+		default:
+			r.Hit(fmt.Sprintf("parallel:callers=%d:ok", c.Par))
 		}
 	}
+}
+
+// runParallel: c.Par goroutines issue all calls of the case on ONE object, each in its own order; the first
+// result that differs from the result on a fresh object is reported. (Runs inside the child process.)
+func runParallel(c *Case, fresh []string) string {
+	obj := c.real()
+	var wg sync.WaitGroup
+	bad := make([]string, c.Par)
+	for g := 0; g < c.Par; g++ {
+		wg.Add(1)
+		go func(g int) {
+			defer wg.Done()
+			for j := range c.Calls {
+				n := (j*(2*g+1) + g) % len(c.Calls) // a different order per goroutine
+				if got := realCall(obj, &c.Calls[n]); got != fresh[n] && bad[g] == "" && len(c.Spent) >= len(c.Ins) {
+					bad[g] = fmt.Sprintf("call %d (%s, input %d, hash type 0x%x) returns %s under %d concurrent callers, %s on a fresh object", n, c.Calls[n].Kind, c.Calls[n].Idx, c.Calls[n].Ht, got, c.Par, fresh[n])
+				}
+			}
+		}(g)
+	}
+	wg.Wait()
+	for _, b := range bad {
+		if b != "" {
+			return b
+		}
+	}
+	return ""
+}
+
+// ---------------------------------------------------------------- the child process for concurrent callers
+
+type parReq struct {
+	Case  *Case    `json:"case"`
+	Fresh []string `json:"fresh"`
+}
+type parRep struct {
+	Bad string `json:"bad"`
+}
+
+// childMain: `c02 -child` — one request per line on stdin, one reply per line on stdout, until EOF.
+func childMain() {
+	script.DBG_ERR = false
+	in := bufio.NewReaderSize(os.Stdin, 1<<20)
+	out := bufio.NewWriter(os.Stdout)
+	for {
+		line, err := in.ReadBytes('\n')
+		if len(bytes.TrimSpace(line)) > 0 {
+			var q parReq
+			if json.Unmarshal(line, &q) != nil || q.Case == nil || len(q.Fresh) != len(q.Case.Calls) {
+				fmt.Fprintln(os.Stderr, "c02 -child: bad request")
+				os.Exit(4)
+			}
+			b, _ := json.Marshal(parRep{runParallel(q.Case, q.Fresh)})
+			out.Write(b)
+			out.WriteByte('\n')
+			out.Flush()
+		}
+		if err != nil {
+			return
+		}
+	}
+}
+
+// headBuf keeps the first bytes written to it (a Go crash report starts with the reason).
+type headBuf struct {
+	mu sync.Mutex
+	b  []byte
+}
+
+func (h *headBuf) Write(p []byte) (int, error) {
+	h.mu.Lock()
+	if room := 3000 - len(h.b); room > 0 {
+		if len(p) < room {
+			room = len(p)
+		}
+		h.b = append(h.b, p[:room]...)
+	}
+	h.mu.Unlock()
+	return len(p), nil
+}
+func (h *headBuf) String() string { h.mu.Lock(); defer h.mu.Unlock(); return string(h.b) }
+
+type parChild struct {
+	cmd  *exec.Cmd
+	in   io.WriteCloser
+	out  *bufio.Reader
+	errb *headBuf
+}
+
+var pc *parChild
+var parChildrenStarted int
+
+const parTimeout = 90 * time.Second
+
+func parStart() *parChild {
+	exe, err := os.Executable()
+	if err != nil {
+		fmt.Fprintln(os.Stderr, "c02: cannot find own executable:", err)
+		os.Exit(3)
+	}
+	p := &parChild{cmd: exec.Command(exe, "-child"), errb: &headBuf{}}
+	p.cmd.Stderr = p.errb
+	p.in, _ = p.cmd.StdinPipe()
+	so, _ := p.cmd.StdoutPipe()
+	p.out = bufio.NewReaderSize(so, 1<<16)
+	if err := p.cmd.Start(); err != nil {
+		fmt.Fprintln(os.Stderr, "c02: cannot start the child process:", err)
+		os.Exit(3)
+	}
+	parChildrenStarted++
+	return p
+}
+
+func parStop() {
+	if pc != nil {
+		pc.in.Close()
+		pc.cmd.Wait()
+		pc = nil
+	}
+}
+
+// parallelInChild: bad = a wrong digest under concurrency; crash = the child died / hung on this case.
+func parallelInChild(c *Case, fresh []string) (bad, crash string) {
+	if pc == nil {
+		pc = parStart()
+	}
+	p := pc
+	b, _ := json.Marshal(parReq{c, fresh})
+	type res struct {
+		line []byte
+		err  error
+	}
+	ch := make(chan res, 1)
+	go func() {
+		_, werr := p.in.Write(append(b, '\n'))
+		if werr != nil {
+			ch <- res{nil, werr}
+			return
+		}
+		l, e := p.out.ReadBytes('\n')
+		ch <- res{l, e}
+	}()
+	var x res
+	hung := false
+	select {
+	case x = <-ch:
+	case <-time.After(parTimeout):
+		hung = true
+		p.cmd.Process.Kill()
+		x = <-ch
+	}
+	if !hung && x.err == nil {
+		var rep parRep
+		if json.Unmarshal(x.line, &rep) == nil {
+			return rep.Bad, ""
+		}
+	}
+	// the child is gone (or was killed): collect its status and the head of its crash report
+	p.in.Close()
+	werr := p.cmd.Wait()
+	pc = nil
+	status := "exit status 0"
+	if werr != nil {
+		status = werr.Error()
+	}
+	reason := strings.TrimSpace(p.errb.String())
+	if i := strings.Index(reason, "\n\n"); i > 0 {
+		reason = reason[:i] // the first paragraph: "fatal error: …" / "panic: …"
+	}
+	if len(reason) > 400 {
+		reason = reason[:400]
+	}
+	reason = strings.ReplaceAll(reason, "\n", " | ")
+	if hung {
+		return "", fmt.Sprintf("no answer within %v (callers blocked: deadlock / livelock); the process was killed", parTimeout)
+	}
+	return "", fmt.Sprintf("the process died (%s): %s", status, reason)
 }
 
 func bucket(n int) string {
@@ -432,10 +627,16 @@ func replay(path string) {
 		os.Exit(3)
 	}
 	var probe struct {
-		E2E *E2E `json:"e2e"`
+		E2E    *E2E    `json:"e2e"`
+		DScr   *string `json:"delsig_script"`
+		DSig   *string `json:"delsig_sig"`
 	}
 	if json.Unmarshal(doc.Replay, &probe) == nil && probe.E2E != nil {
 		runE2E(probe.E2E)
+		return
+	}
+	if probe.DScr != nil && probe.DSig != nil {
+		delSigOne(unhx(*probe.DScr), unhx(*probe.DSig), "replay")
 		return
 	}
 	var c Case
@@ -448,6 +649,10 @@ func replay(path string) {
 }
 
 func main() {
+	if len(os.Args) > 1 && os.Args[1] == "-child" {
+		childMain()
+		return
+	}
 	r = vlib.NewRun("C02")
 	script.DBG_ERR = false
 	var err error
@@ -465,6 +670,7 @@ func main() {
 	}
 	if r.Replay != "" {
 		replay(r.Replay)
+		parStop()
 		r.Finish("replay of one recorded case", "replay")
 	}
 	g := r.Rng
@@ -504,11 +710,14 @@ func main() {
 		c := genCacheCase(g)
 		runCase(c)
 	}
-	// 5. delSig against FindAndDelete
+	// 5. delSig (real code through the verif hook) against FindAndDelete and the model
+	delSigCorpus()
 	for i := 0; i < r.N(300, 20000); i++ {
 		delSigCase(g, i)
 	}
+	parStop()
 	r.Extra["oracle_requests"] = o.N
+	r.Extra["parallel_child_processes_started"] = parChildrenStarted
 	r.Finish("corpus (sighash.json, boundary transactions, F1 witness), then random transactions (0..n inputs/outputs, CompactSize boundaries 252/253, random version/locktime/sequence) with a hash-type sweep per transaction (all 256 byte values in thorough, edge set + random in quick, 4-byte types for legacy/BIP143) for the three algorithms on ONE object, call-order permutations and parallel callers; a case is distinct by (algorithm, input, hash type, hash of transaction+script) and non-trivial when the input index is in range",
 		"Every digest of the real code is compared with an independent reference (ref.go) and with the Lean model; the model's preimage with the reference preimage; results on a shared object with results on a fresh object; undefined taproot cases are attacked with a real BIP340 signature over the digest handed out; end-to-end spends (P2PKH/bare with code separators and embedded signatures, P2WPKH/P2WSH, taproot key and script path with annex) are signed by the independent signer over the reference digest and must verify, and must not verify over any other digest.")
 }
